@@ -9,6 +9,7 @@ translation.  Binding A replays them in ASCII, ACGT and ACGTN encodings, singly 
 empty rows.
 """
 import json
+import os
 
 import numpy as np
 
@@ -63,6 +64,31 @@ def check_group(g):
                 if o2[0] != "ok" or [_up(x) for x in o2[1]] != [_up(x) for x in batch]:
                     bad.append({"what": "reverse complement applied twice does not give back the input", "tags": {"op": "revcomp-twice", "encoding": ename},
                                 "vectors": g, "expected": batch[:5], "observed": str(o2)[:300]})
+            # the same batch as ENTRIES read (lazily) from a FASTQ file: the result is a new table, the input is left alone, and twice gives it back
+            if ename == "ascii" and all(batch):
+                def entries():
+                    d = os.path.join(core.VERIF, ".work", "c14_%d" % os.getpid())
+                    os.makedirs(d, exist_ok=True)
+                    path = os.path.join(d, "r.fq")
+                    with open(path, "w") as f:
+                        for k, sq in enumerate(batch):
+                            f.write("@r%d\n%s\n+\n%s\n" % (k, sq, "".join(chr(40 + (k + q) % 30) for q in range(len(sq)))))
+                    reads = bnp.open(path).read()
+                    rc = get_reverse_complement(reads)
+                    r1 = rc.sequence.tolist()
+                    kept = reads.sequence.tolist()
+                    rc2 = get_reverse_complement(rc)
+                    return {"rc": r1, "input afterwards": kept, "twice": rc2.sequence.tolist(), "rc after the second call": rc.sequence.tolist(),
+                            "names": rc.name.tolist()}
+                o = outcome(entries)
+                n += 1
+                wante = {"rc": [_up(x) for x in wb], "input afterwards": [_up(x) for x in batch], "twice": [_up(x) for x in batch],
+                         "rc after the second call": [_up(x) for x in wb], "names": ["r%d" % k for k in range(len(batch))]}
+                gote = {k: ([_up(x) for x in val] if isinstance(val, list) and k != "names" else val) for k, val in o[1].items()} if o[0] == "ok" else o
+                if gote != wante:
+                    bad.append({"what": "reverse complement of entries read from a file: result, untouched input or double application differ from the table",
+                                "tags": {"op": "revcomp-entries", "encoding": ename}, "group": {"op": "revcomp-entries"},
+                                "vectors": g, "expected": str(wante)[:300], "observed": str(gote)[:400]})
             # single flat sequences
             for i in sel:
                 t = texts[i]
@@ -117,6 +143,38 @@ def check_group(g):
                                 out.append(gs[np.concatenate([gi[:1], gi[1:]])].tolist())
                             out.append(gs[gi.get_location("start").get_windows(flank=0)].tolist())
                             return out
+                        def from_fasta():
+                            # the contig in an indexed FASTA file (wrapped lines) next to a second contig; the intervals asked in a rotated
+                            # order (a cycle of length >= 3 when there are that many), alternating with whole-contig intervals of the other contig
+                            d = os.path.join(core.VERIF, ".work", "c14_%d" % os.getpid())
+                            os.makedirs(d, exist_ok=True)
+                            path = os.path.join(d, "g.fa")
+                            for f in (path, path + ".fai"):
+                                if os.path.exists(f):
+                                    os.remove(f)
+                            other = "GATTACAT"
+                            with open(path, "w") as f:
+                                f.write(">c\n" + "".join(t[p:p + 4] + "\n" for p in range(0, len(t), 4)) + ">b\n" + other + "\n")
+                            genome = bnp.Genome.from_file(path)
+                            gs = genome.read_sequence()
+                            rot = [(k + 1) % len(ex) for k in range(len(ex))]
+                            names, st, en, sd, wantf = [], [], [], [], []
+                            for k in rot:
+                                names += ["c", "b"]
+                                st += [int(starts[k]), 0]
+                                en += [int(stops[k]), len(other)]
+                                sd += [strands[k], "+"]
+                                wantf += [_up(wv[k]), other]
+                            iv2 = Bed6(names, st, en, ["x"] * len(names), np.zeros(len(names), dtype=int), sd)
+                            got = [gs.extract_intervals(iv2, stranded=True).tolist(), gs[genome.get_intervals(iv2, stranded=True)].tolist()]
+                            return [[_up(x) for x in q] for q in got], [wantf, wantf]
+                        if len(t) >= 1:
+                            o = outcome(from_fasta)
+                            n += 1
+                            if o[0] != "ok" or o[1][0] != o[1][1]:
+                                bad.append({"what": "stranded extraction from an indexed FASTA (intervals in rotated order, two contigs) differs from subsequence / reverse complement",
+                                            "tags": {"op": "extract-fasta", "encoding": ename}, "group": {"op": "extract-fasta"},
+                                            "vectors": [g[i]], "expected": str(o[1][1] if o[0] == "ok" else "")[:300], "observed": str(o[1][0] if o[0] == "ok" else o)[:400]})
                         o = outcome(through_intervals)
                         n += 1
                         wanti = [[_up(w) for w in wv]] + ([[_up(w) for w in wv]] if len(ex) >= 2 else []) + [[_up(w[:1]) for w in wv]]
